@@ -186,7 +186,13 @@ def run(res, tier, seed, driver_ok):
                 Ma = np.asarray(arm.massMatrix(q.copy()), dtype=float)
                 h_ = np.asarray(arm.coriolisGravity(q.copy(), qd.copy(), gv), dtype=float).reshape(-1)
                 tau = ref
-                fd = np.asarray(arm.forwardDynamics(q.copy(), qd.copy(), tau.copy(), gv, Fz), dtype=float).reshape(-1)
+                tau_arr = np.array(tau, dtype=np.float64)          # ONE float64 array handed to both forward-dynamics routes, as a caller would
+                tau_before = tau_arr.copy()
+                fd = np.asarray(arm.forwardDynamics(q.copy(), qd.copy(), tau_arr, gv, Fz), dtype=float).reshape(-1)
+                fd_again = np.asarray(arm.forwardDynamics(q.copy(), qd.copy(), tau_arr, gv, Fz), dtype=float).reshape(-1)
+                if not np.array_equal(tau_arr, tau_before) or G.gt(np.max(np.abs(fd - fd_again)), 1e-9 * max(1.0, float(np.max(np.abs(fd))))):
+                    bad('arm-fd-reuse', 'forward dynamics called twice with the same torque array gives two answers (or alters the array)', inpa,
+                        {'torques_altered': not np.array_equal(tau_arr, tau_before), 'first': fd.tolist(), 'second': fd_again.tolist()})
                 fde = np.asarray(arm.forwardDynamicsE(q.copy(), qd.copy(), tau.copy(), gv, Fz.reshape((6, 1)))[0], dtype=float).reshape(-1)
             Mref = mr.MassMatrix(q, Mlist, Gl, Sl)
             if G.gt(np.max(np.abs(Ma - Mref)), 1e-7 * max(1.0, float(np.max(np.abs(Mref))))):
